@@ -269,7 +269,10 @@ impl Program {
 
         match instruction {
             Instruction::CalibrationDefinition(calibration) => {
-                self.calibrations.insert_calibration(calibration);
+                // The replaced calibration may have been the only user of some qubit.
+                if self.calibrations.insert_calibration(calibration).is_some() {
+                    self.rebuild_used_qubits();
+                }
             }
             Instruction::CircuitDefinition(circuit) => {
                 self.circuits.insert(circuit.name.clone(), circuit);
@@ -293,8 +296,13 @@ impl Program {
                     .insert(gate_definition.name.clone(), gate_definition);
             }
             Instruction::MeasureCalibrationDefinition(calibration) => {
-                self.calibrations
-                    .insert_measurement_calibration(calibration);
+                if self
+                    .calibrations
+                    .insert_measurement_calibration(calibration)
+                    .is_some()
+                {
+                    self.rebuild_used_qubits();
+                }
             }
             Instruction::WaveformDefinition(WaveformDefinition { name, definition }) => {
                 self.waveforms.insert(name, definition);
@@ -1190,7 +1198,14 @@ impl ops::Add<Program> for Program {
 
 impl ops::AddAssign<Program> for Program {
     fn add_assign(&mut self, rhs: Program) {
+        let calibration_count = |calibrations: &Calibrations| {
+            calibrations.calibrations.len() + calibrations.measure_calibrations.len()
+        };
+        let separate_calibration_count =
+            calibration_count(&self.calibrations) + calibration_count(&rhs.calibrations);
         self.calibrations.extend(rhs.calibrations);
+        let calibration_replaced =
+            calibration_count(&self.calibrations) != separate_calibration_count;
         self.memory_regions.extend(rhs.memory_regions);
         self.frames.merge(rhs.frames);
         self.waveforms.extend(rhs.waveforms);
@@ -1199,6 +1214,10 @@ impl ops::AddAssign<Program> for Program {
         self.extern_pragma_map.extend(rhs.extern_pragma_map);
         self.instructions.extend(rhs.instructions);
         self.used_qubits.extend(rhs.used_qubits);
+        if calibration_replaced {
+            // A calibration that was replaced may have been the only user of some qubit.
+            self.rebuild_used_qubits();
+        }
     }
 }
 
